@@ -258,11 +258,13 @@ def recode (bits limbs c scalar : Nat) : List Int :=
 /-- the `[]uint16` digits of one scalar as stored by `partitionScalars` -/
 def partitionScalar (bits limbs c scalar : Nat) : List Nat := (recode bits limbs c scalar).map encodeDigit
 
-/-- window size chosen by `BatchScalarMultiplication` -/
+/-- window size chosen by `BatchScalarMultiplication`: cheapest `c ∈ 2..16` by the cost model (uint64 arithmetic), windows
+whose last digit would not fit the 16-bit digit encoding (`lastC > 16`) are skipped -/
 def bestC (bits nbPoints : Nat) : Nat :=
   let cost (c : Nat) := (1 <<< (c - 1)) + nbPoints * (c + 1) * computeNbChunks bits c
   ((List.range 15).map (· + 2)).foldl (fun (best : Nat × Nat) c =>
-    if cost c % 2 ^ 64 < best.1 then (cost c % 2 ^ 64, c) else best) (2 ^ 64 - 1, 0) |>.2
+    if lastC bits c > 16 then best
+    else if cost c % 2 ^ 64 < best.1 then (cost c % 2 ^ 64, c) else best) (2 ^ 64 - 1, 0) |>.2
 
 /-- `baseTable[0] = base`, `baseTable[i] = baseTable[i−1] + base` -/
 def baseTableAux (O : GOps G) (base : G) : Nat → G → List G
@@ -299,6 +301,14 @@ def batchWith (O : GOps G) (bits limbs c : Nat) (base : G) (scalars : List Nat) 
 
 def batchScalarMul (O : GOps G) (bits limbs : Nat) (base : G) (scalars : List Nat) : List G :=
   batchWith O bits limbs (bestC bits scalars.length) base scalars
+
+/-- the entries `idx` of `BatchScalarMultiplication` on the `n` scalars `sᵢ = scalarAt i` (the window size depends on `n`
+only, every entry on its own scalar only: the other entries need not be computed) -/
+def batchSample (O : GOps G) (bits limbs n : Nat) (base : G) (scalarAt : Nat → Nat) (idx : List Nat) : List G :=
+  let c := bestC bits n
+  let maxC := if c > lastC bits c then c else lastC bits c
+  let tbl := baseTable O base (1 <<< (maxC - 1))
+  idx.map (fun i => batchOne O c tbl (partitionScalar bits limbs c (scalarAt i)))
 
 /-! ### twisted Edwards `scalarMulWindowed` (double-and-add over the 64-bit words of |s|) -/
 
@@ -391,7 +401,11 @@ def ctxPoint {α : Type} (D : FieldDesc α) (C : Ctx α) (e P : String) : Option
   let q := if ee = 0 then none else if ee = 1 then C.g else C.E.smul (Int.ofNat ee) C.g
   if C.E.beq q p then some (ee, p) else none
 
-def expected {α : Type} (C : Ctx α) (k : Int) : Pt α := C.E.smul (k % (Int.ofNat C.r)) C.g
+/-- `[k]G` computed in the exponent: `[k mod r]G`, through the residue of smaller absolute value (`[r]G = O`, checked by the
+`curve` line, so `[k']G = −[r − k']G`) -/
+def expected {α : Type} (C : Ctx α) (k : Int) : Pt α :=
+  let k' := k % (Int.ofNat C.r)
+  if 2 * k' > Int.ofNat C.r then C.E.neg (C.E.smul (Int.ofNat C.r - k') C.g) else C.E.smul k' C.g
 
 /-- model result, cross-checked against the specification value computed in the exponent -/
 def checked {α : Type} (C : Ctx α) (want : Pt α) (models : List (String × Pt α)) : String :=
@@ -409,7 +423,7 @@ def runCurve {α : Type} (D : FieldDesc α) (op variant : String) (args : List S
       let small (s : Int) : Bool := s.natAbs < 65536
       match op, rest with
       | "curve", [] => "ok"
-      | "sm", [w, lam, e, P, s] =>
+      | "smx", [w, lam, e, P, s] | "sm", [w, lam, e, P, s] =>
         match ctxPoint D C e P with
         | none => "bad-point"
         | some (ee, p) =>
@@ -418,7 +432,9 @@ def runCurve {α : Type} (D : FieldDesc α) (op variant : String) (args : List S
           let want := expected C (s * ee)
           -- one hand model per line (chosen by the variant), cross-checked against the value computed in the exponent
           let glv := (variant == "aff" || variant == "base") && w != "-"
+          -- `smx`: specification value only (the must-have scalar classes: one scalar multiplication per line)
           let m1 :=
+            if op == "smx" then [] else
             if glv then
               let om := D.F.ofNat (parseHexD w)
               let phi : Pt α → Pt α := fun P => match P with | none => none | some (x, y) => some (D.F.mul om x, y)
@@ -449,6 +465,21 @@ def runCurve {α : Type} (D : FieldDesc α) (op variant : String) (args : List S
           if got.length ≠ want.length then "model-mismatch:length" else
           if (got.zip want).any (fun gw => !(C.E.beq gw.1 gw.2)) then "model-mismatch:batchScalarMul" else
           if want.isEmpty then "-" else " ".intercalate (want.map C.E.showPt)
+      | "batchpow", [e, P, n, alpha, beta, idxs] =>
+        match ctxPoint D C e P with
+        | none => "bad-point"
+        | some (ee, p) =>
+          let n := parseHexD n; let alpha := parseHexD alpha; let beta := parseHexD beta
+          let idx := parseScalars idxs
+          if n > 2 ^ 17 || idx.any (· ≥ n) then "bad-op" else
+          if alpha ≥ C.r || beta ≥ C.r then "bad-scalar" else
+          let bits := bitLen C.r
+          let limbs := (bits + 63) / 64
+          let scalarAt (i : Nat) : Nat := (beta * powMod alpha i C.r) % C.r
+          let got := batchSample O bits limbs n p scalarAt idx
+          let want := idx.map (fun i => expected C (Int.ofNat (scalarAt i) * ee))
+          if (got.zip want).any (fun gw => !(C.E.beq gw.1 gw.2)) then "model-mismatch:batchScalarMul" else
+          if want.isEmpty then "-" else " ".intercalate (want.map C.E.showPt)
       | _, _ => "bad-op"
   | _ => "bad-op"
 
@@ -462,7 +493,7 @@ def fdFp4 (p β g0 g1 : Nat) : FieldDesc ((Nat × Nat) × (Nat × Nat)) :=
 def showInts (l : List Int) : String := " ".intercalate (l.map intToHex)
 
 /-- twisted Edwards lines; `full` (the `tecurve` line): also `[order]B = O` -/
-def runTE (full : Bool) (args : List String) : String :=
+def runTE (full : Bool) (specOnly : Bool) (args : List String) : String :=
   match args with
   | q :: a :: d :: order :: base :: rest =>
     let q := parseHexD q; let a := parseHexD a; let d := parseHexD d; let n := parseHexD order
@@ -481,9 +512,11 @@ def runTE (full : Bool) (args : List String) : String :=
       let s := parseInt s
       if refSmul O (Int.ofNat ee) B != p then "bad-point"
       else
-        let want := refSmul O ((s * ee) % (Int.ofNat n)) B
+        let k' := (s * ee) % (Int.ofNat n)
+        -- residue of smaller absolute value (`[n]B = O`, checked by the `tecurve` line)
+        let want := if 2 * k' > Int.ofNat n then O.neg (refSmul O (Int.ofNat n - k') B) else refSmul O k' B
         let sh (P : Nat × Nat) := toHex P.1 ++ ";" ++ toHex P.2
-        if teScalarMul O s p != want then "model-mismatch:teScalarMul"
+        if !specOnly && teScalarMul O s p != want then "model-mismatch:teScalarMul"
         else if s.natAbs < 65536 && refSmul O s p != want then "model-mismatch:smul"
         else sh want
     | _, _ => "bad-op"
@@ -499,10 +532,12 @@ def handle (args : List String) : String :=
     let k := splitScalar s l
     showInts [l.v11, l.v12, l.v21, l.v22, l.det, k.1, k.2]
   | "te" :: variant :: _curve :: rest =>
-    if ["aff", "proj", "ext"].contains variant then runTE false rest else "bad-op"
-  | "tecurve" :: _ :: _curve :: rest => runTE true rest
+    if ["aff", "proj", "ext"].contains variant then runTE false false rest else "bad-op"
+  | "tex" :: variant :: _curve :: rest =>
+    if ["aff", "proj", "ext"].contains variant then runTE false true rest else "bad-op"
+  | "tecurve" :: _ :: _curve :: rest => runTE true false rest
   | op :: variant :: _curve :: _grp :: fld :: rest =>
-    if !(["curve", "sm", "joint", "jointbig", "batch"].contains op) then "bad-op" else
+    if !(["curve", "sm", "smx", "joint", "jointbig", "batch", "batchpow"].contains op) then "bad-op" else
     match splitOn fld ':' with
     | ["fp", p] => runCurve (fdFp (parseHexD p)) op variant rest
     | ["fp2", p, β] => runCurve (fdFp2 (parseHexD p) (parseHexD β)) op variant rest
